@@ -1,5 +1,6 @@
 (* C06 — static graph hashes of dataset-wide layers identify the function they key. *)
-From Connectome Require Import Values Attrs VM Edges EdgesGen MiscGen HashSound GraphHashModel GraphHash StaticHash Examples.
+From Connectome Require Import Values Attrs VM Edges EdgesGen GraphGen HashSound GraphHashModel GraphHash StaticHash Examples.
+From Connectome Require NodeHashGen.
 Local Open Scope list_scope.
 
 (* The static hash of a Merge switch pins the id-to-dataset routing (the repaired SwitchEdge._hash_graph; with the
@@ -85,3 +86,12 @@ Example C06_example_routings :
      = hash_graph (g [(VStr "3", 1); (VStr "2", 0); (VStr "1", 0)]) [0] 5 3.
 Proof. split; [vm_compute; discriminate|vm_compute; reflexivity]. Qed.
 Print Assumptions C06_example_routings.
+
+(* The node-hash values this file reasons about are the ones engine/node_hash.py builds (regenerated, Gen/NodeHashGen.v):
+   tags 0-3 for leaf / apply / graph / custom, the components of each `value` tuple in order, and == on `value`. *)
+Theorem C06_node_hash_values_are_translated :
+  NodeHashGen.hash_tags = [0; 1; 2; 3] /\ NodeHashGen.LeafHash_value = ["tag"; "data"]
+  /\ NodeHashGen.ApplyHash_value = ["tag"; "func"; "args.value"; "kw_names"] /\ NodeHashGen.GraphHash_value = ["tag"; "output.value"]
+  /\ NodeHashGen.CustomHash_value = ["tag"; "marker"; "*children.value"] /\ NodeHashGen.nodehash_eq_compares = "value".
+Proof. repeat split; reflexivity. Qed.
+Print Assumptions C06_node_hash_values_are_translated.
